@@ -1,7 +1,7 @@
 // U-sched: the scheduler core under contract (C01-C06, C08, C15, C16, C19 function-level parts).
 //@@ unit U-sched
 //@@ default props=C02 rewrites=R1,R2,R3,R5,R13 ghost="Tracked(h): Tracked<&mut Heap>" ghostarg="Tracked(h)" loopinv="h.wf(), fwd(*old(h), *h)," bodyprelude="broadcast use {lemma_fwd_refl, lemma_fwd_trans, axiom_flag_as_bool};" attr="#[verifier::exec_allows_no_decreases_clause] #[verifier::loop_isolation(false)]"
-//@@ heapmethods state set_state set_err err children children_in next parent siblings task set_task sched_task emit_task_event emit_proc_event eval init run review error exec is_ready emit_task emit_error create_task push root set_data flag set_flag prev start_time update_data outputs is_event_processed prepare is_auto_complete abort_task back_task undo_task redo_task action set_action get_var get_var_or_default dispatch_act backs backs_step create_context set_message_with update arm_cancel do_action dispatch time_millis hooks_snapshot flag_or_false run_hooks_by run_hooks find run_hooks_timeout add_hook_stmts add_hook_catch add_hook_timeout params build_acts dispatch_acts set_emit_disabled set_auto_complete is_emit_disabled create_message emit_message upsert
+//@@ heapmethods state set_state set_err err children children_in next parent siblings task set_task sched_task emit_task_event emit_proc_event eval init run review error exec is_ready emit_task emit_error create_task push root set_data flag set_flag prev start_time update_data outputs is_event_processed prepare is_auto_complete abort_task back_task undo_task redo_task action set_action get_var get_var_or_default dispatch_act backs backs_step create_context set_message_with update arm_cancel do_action dispatch time_millis hooks_snapshot flag_or_false run_hooks_by run_hooks find run_hooks_timeout add_hook_stmts add_hook_catch add_hook_timeout params build_acts dispatch_acts set_emit_disabled set_auto_complete execute tasks_with_timeout_hooks do_tick is_emit_disabled create_message emit_message upsert
 use vstd::prelude::*;
 use std::sync::Arc;
 verus! {
@@ -283,13 +283,29 @@ impl Context {
 }
 
 impl Context {
-    // stub (G6 replaces it): one new act task under the current task, pushed to the queue, unless the current task is in state None
-    #[verifier::external_body]
-    pub fn dispatch_act(&self, act: &Act, is_hook_event: bool, Tracked(h): Tracked<&mut Heap>) -> (r: Result<()>)
+//@@ extract file=acts/src/scheduler/context.rs in="impl Context" item="fn dispatch_act" name=Context::dispatch_act props=C16,C02
+//@@ rw R7 `act . id . to_string ( )` => `act.id.clone()`
+//@@ rw R6 `task . set_data_with ( | data | data . set ( $K , true ) ) ;` => `task.set_flag($K, true);`
+//@@ proof at=start
+        proof { lemma_flag_keys(); }
+//@@ spec
         requires old(h).wf()
-        ensures final(h).wf(), fwd(*old(h), *final(h)), final(h).cur == old(h).cur, r is Ok, final(h).proc_state == old(h).proc_state,
-                forall|x: Tid| #[trigger] old(h).has(x) ==> final(h).tasks[x] == old(h).tasks[x],
-    { unimplemented!() }
+        ensures
+            //# G6-dispatch-act-frame
+            final(h).wf() && fwd(*old(h), *final(h)) && final(h).cur == old(h).cur && ret is Ok && final(h).proc_state == old(h).proc_state,
+            //# G6-existing-tasks-untouched
+            forall|x: Tid| #[trigger] old(h).has(x) ==> final(h).tasks[x] == old(h).tasks[x],
+            //# G6-nothing-under-an-uninitialised-task
+            old(h).st(old(h).cur) is None ==> *final(h) == *old(h),
+            //# G6-exactly-one-new-act-task
+            !(old(h).st(old(h).cur) is None) ==> exists|n: Tid| #[trigger] final_witness(*old(h), *final(h), n, *act, is_hook_event),
+//@@ proof after=push#1
+            proof { assert(final_witness(*old(h), *h, task.id@, *act, is_hook_event)); }
+//@@ end
+}
+pub open spec fn final_witness(a: Heap, b: Heap, n: Tid, act: Act, hook: bool) -> bool {
+    !a.has(n) && b.has(n) && b.tasks.dom() =~= a.tasks.dom().insert(n) && b.queue == a.queue.push(n) && b.tasks[n].prev == Some(a.cur) && b.tasks[n].state is None
+        && b.tasks[n].node.content == NodeContent::Act(act) && (hook ==> flag_is(b.tasks[n], consts::IS_EVENT_PROCESSED@, false))
 }
 // R8: the Cancel arm of Task::update (closure over the heap inside `follows`) is a declared hole
 #[verifier::external_body]
@@ -529,6 +545,15 @@ pub proof fn lemma_emit_summary(a: Heap, b1: Heap, t: Tid)
         }
 //@@ end
 
+pub proof fn lemma_prefix_contains(a: Seq<Tid>, b: Seq<Tid>, x: Tid)
+    requires a.is_prefix_of(b), a.contains(x)
+    ensures b.contains(x), b.len() >= a.len()
+{
+    let i = choose|i: int| 0 <= i < a.len() && a[i] == x;
+    assert(b.subrange(0, a.len() as int) =~= a);
+    assert(b.subrange(0, a.len() as int)[i] == b[i]);
+}
+pub open spec fn visited_all(h: Heap, v: Seq<Tid>) -> bool { v.no_duplicates() && forall|t: Tid| #[trigger] v.contains(t) <==> h.has(t) && has_timeout_hook(h, t) }
 // ---- admission (oracle: property C05): the action names an existing task, the task kind fits the action
 //      (steps for push, acts for everything else) and every declared output is supplied
 pub open spec fn admissible(h: Heap, a: Action) -> bool {
@@ -537,6 +562,44 @@ pub open spec fn admissible(h: Heap, a: Action) -> bool {
     &&& h.tasks[a.tid@].node.s_outputs()@.dom().subset_of(a.options@.dom())
 }
 impl Process {
+//@@ extract file=acts/src/scheduler/process/process.rs in="impl Process" item="fn do_tick" name=Process::do_tick props=C19
+//@@ opt rewrites=R1,R2,R3,R5,R13,R22
+//@@ rw R7 `self . find_tasks ( | t | t . hooks ( ) . contains_key ( & TaskLifeCycle :: Timeout ) )` => `self.tasks_with_timeout_hooks()`
+//@@ rw R10 `$X:chain . unwrap_or_else ( | err | $B:block )` => `ignore_err($X)`
+//@@ spec
+        requires old(h).wf()
+        ensures
+            //# W3-tick-fwd
+            final(h).wf() && fwd(*old(h), *final(h)),
+            //# W3-every-task-with-a-timeout-hook-is-visited
+            exists|v: Seq<Tid>| #[trigger] visited_all(*old(h), v) && final(h).ctx_log.len() >= old(h).ctx_log.len() + v.len()
+                && forall|j: int| 0 <= j < v.len() ==> final(h).ctx_log.contains(#[trigger] v[j]),
+//@@ loop 1
+        invariant
+            //# visited-so-far
+            tasks_ok(*h, __v1@) && h.ctx_log.len() >= old(h).ctx_log.len() + __i1 && forall|j: int| 0 <= j < __i1 ==> h.ctx_log.contains((#[trigger] __v1@[j]).id@),
+//@@ proof at=loop1
+            let ghost h0 = *h;
+//@@ proof after=create_context#1
+            let ghost h1 = *h;
+            proof { assert(h1.ctx_log.last() == t.id@); assert(h1.ctx_log[h1.ctx_log.len() - 1] == t.id@); assert(h1.ctx_log.contains(t.id@)); }
+//@@ proof after=ignore_err#1
+            proof {
+                assert(h1.ctx_log.is_prefix_of(h.ctx_log));
+                assert(h0.ctx_log.is_prefix_of(h1.ctx_log)) by { assert(h1.ctx_log.subrange(0, h0.ctx_log.len() as int) =~= h0.ctx_log); }
+                assert(h.ctx_log.subrange(0, h1.ctx_log.len() as int) =~= h1.ctx_log);
+                assert forall|j: int| 0 <= j < __i1 implies h.ctx_log.contains((#[trigger] __v1@[j]).id@) by {
+                    if j < __i1 - 1 { lemma_prefix_contains(h0.ctx_log, h1.ctx_log, __v1@[j].id@); }
+                    lemma_prefix_contains(h1.ctx_log, h.ctx_log, __v1@[j].id@);
+                }
+            }
+//@@ proof at=afterloop1
+        proof {
+            let v = tids(__v1@);
+            assert(visited_all(*old(h), v));
+            assert forall|j: int| 0 <= j < v.len() implies h.ctx_log.contains(#[trigger] v[j]) by { assert(h.ctx_log.contains(__v1@[j].id@)); }
+        }
+//@@ end
 //@@ extract file=acts/src/scheduler/process/process.rs in="impl Process" item="fn do_action" name=Process::do_action props=C05,C07,C02
 //@@ opt noheap=outputs
 //@@ rw R12 `for ( ref key , _ ) in & rets` => `for key in rets.keys_vec().iter()`
@@ -750,10 +813,55 @@ impl ActTask for Act {
 //@@ extract file=acts/src/scheduler/mod.rs in="trait ActTask" item="fn error" name=Act::error(default) props=C02,C06
 //@@ opt traitpost attr="#[verifier::exec_allows_no_decreases_clause]"
 //@@ end
-    #[verifier::external_body]
-    fn init(&self, ctx: &Context, Tracked(h): Tracked<&mut Heap>) -> (ret: Result<()>) { unimplemented!() }
-    #[verifier::external_body]
-    fn run(&self, ctx: &Context, Tracked(h): Tracked<&mut Heap>) -> (ret: Result<()>) { unimplemented!() }
+//@@ extract file=acts/src/scheduler/process/task/act.rs in="impl ActTask for Act" item="fn init" name=Act::init props=C04,C08,C02,C06,C19
+//@@ opt traitpost
+//@@ rw R7 `crate :: ActError` => `ActError`
+//@@ proof at=start
+        proof { lemma_flag_keys(); }
+//@@ spec
+        ensures
+            //# D3-false-condition-skips-and-schedules-nothing
+            self.r#if is Some && ret is Ok && eval_result::<bool>(self.r#if->Some_0@, *old(h)) == Ok::<bool, ActError>(false)
+                ==> final(h).st(old(h).cur) is Skipped && final(h).queue == old(h).queue && final(h).hooks == old(h).hooks,
+            //# M4-irq-acts-interrupt-and-report
+            ret is Ok && !(final(h).st(old(h).cur) is Skipped) && pack_info(self.uses@) is Ok && pack_info(self.uses@)->Ok_0.run_as is Irq
+                ==> final(h).st(old(h).cur) is Interrupt && flag_is(final(h).tasks[old(h).cur], consts::TASK_EMIT_DISABLED@, false) == flag_is(old(h).tasks[old(h).cur], consts::TASK_EMIT_DISABLED@, false),
+            //# M4-msg-and-func-acts-start-silent
+            ret is Ok && !(final(h).st(old(h).cur) is Skipped) && pack_info(self.uses@) is Ok && !(pack_info(self.uses@)->Ok_0.run_as is Irq)
+                ==> final(h).st(old(h).cur) is Ready && flag_is(final(h).tasks[old(h).cur], consts::TASK_EMIT_DISABLED@, false),
+            //# D3-init-schedules-nothing
+            final(h).queue == old(h).queue && final(h).tasks.dom() == old(h).tasks.dom(),
+            //# B1-unknown-package-fails-the-act
+            self.uses@.len() > 0 && pack_info(self.uses@) is Err && !(final(h).st(old(h).cur) is Skipped) ==> ret is Err,
+//@@ loop 1
+        invariant
+            //# registering-hooks
+            h.cur == old(h).cur && task.id@ == h.cur && h.tasks.dom() == old(h).tasks.dom() && h.queue == old(h).queue
+                && h.st(h.cur) == old(h).st(old(h).cur) && h.tasks[h.cur].flags == old(h).tasks[old(h).cur].flags,
+//@@ loop 2
+        invariant
+            //# registering-hooks
+            h.cur == old(h).cur && task.id@ == h.cur && h.tasks.dom() == old(h).tasks.dom() && h.queue == old(h).queue
+                && h.st(h.cur) == old(h).st(old(h).cur) && h.tasks[h.cur].flags == old(h).tasks[old(h).cur].flags,
+//@@ end
+//@@ extract file=acts/src/scheduler/process/task/act.rs in="impl ActTask for Act" item="fn run" name=Act::run props=C04,C08,C02,C16
+//@@ opt traitpost
+//@@ rw R7 `( register . create ) ( $A )` => `register.create_pack($A)`
+//@@ proof at=start
+        proof { lemma_flag_keys(); }
+//@@ spec
+        ensures
+            //# M4-msg-acts-report-once-running
+            ret is Ok && pack_info(self.uses@) is Ok && pack_info(self.uses@)->Ok_0.run_as is Msg ==> !flag_is(final(h).tasks[old(h).cur], consts::TASK_EMIT_DISABLED@, false),
+            //# D4-act-run-keeps-task-states
+            forall|x: Tid| #[trigger] old(h).has(x) ==> final(h).tasks[x].state == old(h).tasks[x].state,
+//@@ proof at=beforeloop1
+        let ghost hb = *h;
+//@@ loop 1
+        invariant
+            //# children-scheduled
+            h.cur == old(h).cur && forall|x: Tid| #[trigger] hb.has(x) ==> h.has(x) && h.tasks[x] == hb.tasks[x],
+//@@ end
 //@@ extract file=acts/src/scheduler/process/task/act.rs in="impl ActTask for Act" item="fn next" name=Act::next props=C02,C03,C04,C01,C15
 //@@ opt traitpost
 //@@ loop 1
